@@ -664,6 +664,8 @@ impl<'ast> syn::visit::Visit<'ast> for HasEarlyExit {
 }
 
 struct Pass {
+    into_fn: Option<String>,
+    box_count: usize,
     kinds: BTreeMap<String, Kind>,
     field_kinds: BTreeMap<String, Kind>,
     subst: Vec<(String, String)>,
@@ -672,6 +674,110 @@ struct Pass {
     loop_count: usize,
     proofs: Vec<(String, String)>,
     used_proofs: Vec<bool>,
+}
+
+
+impl Pass {
+    /// X13: string-collection plumbing `E.into_iter().map(|s| s.as_ref().to_string()).collect()` -> `__vp_to_strings(E)`,
+    ///      `E.iter().cloned().map(|n| n.into()).collect()` -> `__vp_clone_strings(E)`
+    fn x13(&mut self, e: &Expr) -> Option<Expr> {
+        let (base, links) = unchain(e);
+        let n = names(&links);
+        let body_of = |l: &Link| -> Option<String> {
+            match l.args.first()? {
+                Expr::Closure(c) if c.inputs.len() == 1 => {
+                    let p = pat_ident(&c.inputs[0])?.to_string();
+                    Some(norm(&c.body.to_token_stream().to_string()).replace(&format!("{}.", p), "$."))
+                }
+                _ => None,
+            }
+        };
+        if n == ["into_iter", "map", "collect"] && body_of(&links[1]).as_deref() == Some("$.as_ref().to_string()") {
+            self.rw.note("X13", e.span().start().line);
+            return Some(parse_quote!(__vp_to_strings(#base)));
+        }
+        if n == ["iter", "cloned", "map", "collect"] && body_of(&links[2]).as_deref() == Some("$.into()") {
+            self.rw.note("X13", e.span().start().line);
+            return Some(parse_quote!(__vp_clone_strings(#base)));
+        }
+        None
+    }
+
+    /// X15: iterator pipelines `V.iter()[.enumerate()](.filter(c))*.{find|any|all|position}(c)` -> a block with an index
+    /// loop whose conditions are the closure bodies (the iterator protocol is trusted, the predicates are the real text)
+    fn x15(&mut self, e: &Expr) -> Option<Expr> {
+        let (base, links) = unchain(e);
+        let n = names(&links);
+        if n.len() < 2 || n[0] != "iter" {
+            return None;
+        }
+        let term = *n.last().unwrap();
+        if !["find", "any", "all", "position"].contains(&term) {
+            return None;
+        }
+        let mut i = 1;
+        let enumerate = n[i] == "enumerate";
+        if enumerate {
+            i += 1;
+        }
+        let mut conds: Vec<(Pat, Expr, bool)> = vec![]; // (pattern, predicate, is_terminal)
+        while i < n.len() {
+            let is_term = i == n.len() - 1;
+            if !is_term && n[i] != "filter" {
+                return None;
+            }
+            let clo = match links[i].args.first()? {
+                Expr::Closure(c) if c.inputs.len() == 1 => c.clone(),
+                _ => return None,
+            };
+            let mut hx = HasEarlyExit(false);
+            syn::visit::Visit::visit_expr(&mut hx, &clo.body);
+            if hx.0 {
+                return None;
+            }
+            let pat = match &clo.inputs[0] {
+                Pat::Type(pt) => (*pt.pat).clone(),
+                other => other.clone(),
+            };
+            conds.push((pat, (*clo.body).clone(), is_term));
+            i += 1;
+        }
+        let item: Expr = if enumerate { parse_quote!((__i, &#base[__i])) } else { parse_quote!(&#base[__i]) };
+        // filter closures and find's closure receive a reference to the item; any/all/position receive the item
+        let mut stmts: Vec<Stmt> = vec![];
+        let by_ref_term = term == "find";
+        for (pat, pred, is_term) in conds.iter() {
+            let bind: Stmt = if !*is_term || by_ref_term { parse_quote!(let #pat = &__item;) } else { parse_quote!(let #pat = __item;) };
+            if !*is_term {
+                stmts.push(parse_quote!({ #bind if !(#pred) { __i = __vp_succ(__i); continue; } }));
+            } else {
+                let hit: Stmt = match term {
+                    "find" => parse_quote!({ #bind if #pred { __r = Some(__item); break; } }),
+                    "position" => parse_quote!({ #bind if #pred { __r = Some(__i); break; } }),
+                    "any" => parse_quote!({ #bind if #pred { __r = true; break; } }),
+                    _ => parse_quote!({ #bind if !(#pred) { __r = false; break; } }),
+                };
+                stmts.push(hit);
+            }
+        }
+        let init: Expr = match term {
+            "find" | "position" => parse_quote!(None),
+            "any" => parse_quote!(false),
+            _ => parse_quote!(true),
+        };
+        self.rw.note("X15", e.span().start().line);
+        Some(parse_quote!({
+            let mut __r = #init;
+            let __n = #base.len();
+            let mut __i: usize = 0;
+            while __i < __n {
+                let __item = #item;
+                #(#stmts)*
+                __i = __vp_succ(__i);
+            }
+            __r
+        }))
+    }
 }
 
 impl Pass {
@@ -703,6 +809,13 @@ impl Pass {
                             return Kind::Opt;
                         }
                         if n == "Ok" || n == "Err" {
+                            return Kind::Res;
+                        }
+                        if let Some(k) = self.field_kinds.get(&n) {
+                            return *k;
+                        }
+                        if ["create_wrapped_basis_function", "create_index_mapping", "check_parameter_names", "check_parameter_count",
+                            "extend_model", "model_function_jacobian", "evaluate_and_check"].contains(&n.as_str()) {
                             return Kind::Res;
                         }
                     }
@@ -881,6 +994,12 @@ impl VisitMut for Pass {
 
     fn visit_expr_mut(&mut self, e: &mut Expr) {
         let line = e.span().start().line;
+        // X13 / X15 (pre-order): iterator plumbing over slices
+        if let Some(n) = self.x13(e) {
+            *e = n;
+        } else if let Some(n) = self.x15(e) {
+            *e = n;
+        }
         // X12 first (pre-order): the closure literal of an Option/Result combinator disappears into a match
         if let Some(n) = self.x12(e) {
             *e = n;
@@ -978,6 +1097,17 @@ impl VisitMut for Pass {
                     self.rw.note("X7", line);
                     return;
                 }
+                // X7b: Box::new(callable) -> BaseFunc::from_closure(callable, Ghost(__gN)) (the ghost function comes from the contracts)
+                if let Expr::Path(p) = &*c.func {
+                    if path_str(&p.path) == "Box::new" && c.args.len() == 1 {
+                        self.box_count += 1;
+                        let g = syn::Ident::new(&format!("__g{}", self.box_count), Span::call_site());
+                        let a = &c.args[0];
+                        *e = parse_quote!(BaseFunc::from_closure(#a, Ghost(#g)));
+                        self.rw.note("X7b", line);
+                        return;
+                    }
+                }
                 // X1: Dyn(e) -> e
                 if let Expr::Path(p) = &*c.func {
                     if p.path.is_ident("Dyn") && c.args.len() == 1 {
@@ -1054,6 +1184,17 @@ impl VisitMut for Pass {
                         }
                     }
                 }
+            }
+            Expr::MethodCall(mc) if mc.method == "into" && mc.args.is_empty() && self.into_fn.is_some() => {
+                let f = syn::Ident::new(self.into_fn.as_ref().unwrap(), Span::call_site());
+                let r = &mc.receiver;
+                *e = parse_quote!(#f(#r));
+                self.rw.note("X1", line);
+            }
+            Expr::MethodCall(mc) if mc.method == "contains" && mc.args.len() == 1 && matches!(&mc.args[0], Expr::Lit(l) if matches!(l.lit, syn::Lit::Char(_))) => {
+                let (r, c) = (&mc.receiver, &mc.args[0]);
+                *e = parse_quote!(__vp_str_contains_char(&#r, #c));
+                self.rw.note("X1", line);
             }
             Expr::MethodCall(mc) => {
                 if mc.method == "copy_from" && mc.args.len() == 1 {
@@ -1139,6 +1280,37 @@ pub fn extract(ast: &syn::File, file: &str, spec: &FnSpec, pr: &mut Printer) -> 
         }
     }
     let mut block = f.block.clone();
+    // X14: `mut self` receivers are not supported by Verus: `self` is renamed to `__self` behind `let mut __self = self;`
+    let mut_self = f.sig.inputs.first().map(|a| matches!(a, syn::FnArg::Receiver(r) if r.mutability.is_some() && r.reference.is_none())).unwrap_or(false);
+    if mut_self {
+        struct RenameSelf;
+        impl VisitMut for RenameSelf {
+            fn visit_ident_mut(&mut self, i: &mut syn::Ident) {
+                if i == "self" {
+                    *i = syn::Ident::new("__self", i.span());
+                }
+            }
+            fn visit_macro_mut(&mut self, m: &mut syn::Macro) {
+                // macro arguments are token trees: rename there as well
+                let ts: proc_macro2::TokenStream = m.tokens.clone().into_iter().map(|t| rename_tt(t)).collect();
+                m.tokens = ts;
+            }
+        }
+        fn rename_tt(t: proc_macro2::TokenTree) -> proc_macro2::TokenTree {
+            match t {
+                proc_macro2::TokenTree::Ident(i) if i == "self" => proc_macro2::TokenTree::Ident(proc_macro2::Ident::new("__self", i.span())),
+                proc_macro2::TokenTree::Group(g) => {
+                    let inner: proc_macro2::TokenStream = g.stream().into_iter().map(rename_tt).collect();
+                    let mut ng = proc_macro2::Group::new(g.delimiter(), inner);
+                    ng.set_span(g.span());
+                    proc_macro2::TokenTree::Group(ng)
+                }
+                other => other,
+            }
+        }
+        RenameSelf.visit_block_mut(&mut block);
+        block.stmts.insert(0, parse_quote!(let mut __self = self;));
+    }
     let subst: Vec<(String, String)> = spec
         .attrs
         .get("subst")
@@ -1153,6 +1325,8 @@ pub fn extract(ast: &syn::File, file: &str, spec: &FnSpec, pr: &mut Printer) -> 
         }
     }
     let mut pass = Pass {
+        into_fn: spec.attrs.get("into").cloned(),
+        box_count: 0,
         kinds: BTreeMap::new(),
         field_kinds,
         subst,
@@ -1162,6 +1336,9 @@ pub fn extract(ast: &syn::File, file: &str, spec: &FnSpec, pr: &mut Printer) -> 
         proofs: spec.proofs.clone(),
         used_proofs: vec![false; spec.proofs.len()],
     };
+    if mut_self {
+        pass.rw.note("X14", f.line_start);
+    }
     pass.visit_block_mut(&mut block);
     if let Some(e) = pass.rw.err.take() {
         bail!("unsupported construct in {} ({}): {}", id, file, e);
@@ -1191,6 +1368,21 @@ pub fn extract(ast: &syn::File, file: &str, spec: &FnSpec, pr: &mut Printer) -> 
     // closure / loop counts must be what the contract table was written for
     let want_c: usize = spec.attrs.get("closures").and_then(|s| s.parse().ok()).unwrap_or(0);
     let want_l: usize = spec.attrs.get("loops").and_then(|s| s.parse().ok()).unwrap_or(0);
+    let lenient = std::env::var("VP_EXTRACT_LENIENT").is_ok();
+    if lenient {
+        // exploration mode (never used by the checks): counts are not enforced, missing loop specs default to `invariant true`
+        let mut spec2 = spec.clone();
+        for n in 1..=pass.loop_count {
+            spec2.loops.entry(n).or_insert_with(|| "  invariant true".to_string());
+        }
+        let fn_index = pr.cur_line();
+        let gen_start = pr.cur_line();
+        let ts: proc_macro2::TokenStream = block.stmts.iter().map(|s| s.to_token_stream()).collect();
+        pr.print_fn_body(fn_index, ts, &spec2)?;
+        return Ok(json!({"id": id, "file": file, "repo_lines": [f.line_start, f.line_end], "gen_lines": [gen_start, pr.cur_line()],
+                         "fn_index": fn_index, "parallel_cfg": f.par, "rewrites": pass.rw.log, "tags": "", "safety_tags": "",
+                         "closures": pass.closure_count, "loops": pass.loop_count}));
+    }
     if pass.closure_count != want_c {
         bail!("lost anchor: {} has {} closures after rewriting, contracts expect {}", id, pass.closure_count, want_c);
     }
